@@ -23,6 +23,7 @@ REPO = os.environ.get('VERIF_REPO', '/repo')
 
 MAX_FAIL_PER_SIG = 5
 MAX_SAMPLES = 6
+SERIAL_BELOW = 48     # work lists shorter than this are not worth forking a pool for
 
 
 def h64(obj):
@@ -151,7 +152,7 @@ def parallel_items(fn, items, workers, chunk=None):
     chunk = chunk or max(1, len(items) // (workers * 8) or 1)
     chunks = [items[i:i + chunk] for i in range(0, len(items), chunk)]
     total = Stats()
-    if workers <= 1 or len(chunks) <= 1:
+    if workers <= 1 or len(chunks) <= 1 or len(items) < SERIAL_BELOW:
         for c in chunks:
             total.merge(_items_entry((fn, c)))
         return total
